@@ -505,4 +505,179 @@ theorem underPrefix_of_key_mem_walk {pfx p : Str} (hp : StartsSL p) (hw : PfxWF 
     · exact absurd h h2
     · exact anc_underPrefix h
 
+
+/-! ## scanning answers -/
+
+def inert : Ans → Bool
+  | .pass [] => true
+  | _ => false
+
+/-- drop the answers "not me, no methods" -/
+def nz (l : List Ans) : List Ans := l.filter (fun a => !inert a)
+
+theorem inert_iff (a : Ans) : inert a = true ↔ a = .pass [] := by
+  cases a with
+  | final r => simp [inert]
+  | pass l => cases l <;> simp [inert]
+
+theorem combine_nz (l : List Ans) (acc : List Str) : combine (nz l) acc = combine l acc := by
+  induction l generalizing acc with
+  | nil => rfl
+  | cons a l ih =>
+    cases a with
+    | final r => simp [nz, inert, combine]
+    | pass m =>
+      cases m with
+      | nil =>
+        have : nz (Ans.pass [] :: l) = nz l := by simp [nz, inert]
+        rw [this, ih]; simp [combine]
+      | cons x xs =>
+        have : nz (Ans.pass (x :: xs) :: l) = Ans.pass (x :: xs) :: nz l := by simp [nz, inert]
+        rw [this]; simp only [combine]; exact ih _
+
+theorem nz_append (a b : List Ans) : nz (a ++ b) = nz a ++ nz b := by simp [nz]
+
+theorem nz_filter_map_congr (rs : List Res) (P Q : Res → Bool) (a : Res → Ans)
+    (h1 : ∀ r ∈ rs, P r = true → Q r = true)
+    (h2 : ∀ r ∈ rs, Q r = true → P r = false → a r = .pass []) :
+    nz ((rs.filter Q).map a) = nz ((rs.filter P).map a) := by
+  induction rs with
+  | nil => rfl
+  | cons r rs ih =>
+    have ih' := ih (fun x hx => h1 x (List.mem_cons_of_mem _ hx)) (fun x hx => h2 x (List.mem_cons_of_mem _ hx))
+    cases hP : P r with
+    | true =>
+      have hQ := h1 r (List.mem_cons_self ..) hP
+      simp only [List.filter_cons, hP, hQ, if_true, List.map_cons]
+      show nz ([a r] ++ _) = nz ([a r] ++ _)
+      rw [nz_append, nz_append, ih']
+    | false =>
+      cases hQ : Q r with
+      | true =>
+        have := h2 r (List.mem_cons_self ..) hQ hP
+        simp only [List.filter_cons, hP, hQ, if_true, List.map_cons, this]
+        show nz ([Ans.pass []] ++ _) = _
+        rw [nz_append, ih']
+        simp [nz, inert]
+      | false =>
+        simp only [List.filter_cons, hP, hQ]
+        exact ih'
+
+theorem nz_all_inert (rs : List Res) (Q : Res → Bool) (a : Res → Ans)
+    (h : ∀ r ∈ rs, Q r = true → a r = .pass []) : nz ((rs.filter Q).map a) = [] := by
+  have := nz_filter_map_congr rs (fun _ => false) Q a (by simp) (fun r hr hq _ => h r hr hq)
+  rw [this]; simp [nz]
+
+/-- scanning the buckets of a strictly shortening key chain `W` = scanning all depths downwards,
+provided every resource whose key is not on the chain is inert -/
+theorem scan_eq (rs : List Res) (key : Res → Str) (dom : Res → Bool) (a : Res → Ans) :
+    ∀ (n : Nat) (W : List Str), W.Pairwise (fun x y => y.length < x.length) →
+      (∀ k ∈ W, k.length < n) →
+      (∀ r ∈ rs, dom r = false → (key r).length < n → key r ∉ W → a r = .pass []) →
+      nz (W.flatMap (fun k => (rs.filter (fun r => !dom r && key r == k)).map a)) =
+      nz ((descFrom n).flatMap (fun m => (rs.filter (fun r => !dom r && (key r).length == m)).map a)) := by
+  intro n
+  induction n with
+  | zero =>
+    intro W _ hlen _
+    cases W with
+    | nil => simp [descFrom, nz]
+    | cons k W' => have := hlen k (List.mem_cons_self ..); omega
+  | succ n ih =>
+    intro W hpw hlen hin
+    simp only [descFrom, List.flatMap_cons, nz_append]
+    by_cases hall : ∀ k ∈ W, k.length < n
+    · -- nothing on the chain has depth n: the depth-n bucket is inert
+      have h0 : nz ((rs.filter (fun r => !dom r && (key r).length == n)).map a) = [] := by
+        apply nz_all_inert
+        intro r hr hq
+        simp only [Bool.and_eq_true, Bool.not_eq_true', beq_iff_eq] at hq
+        refine hin r hr hq.1 (by omega) ?_
+        intro hm; have := hall _ hm; omega
+      rw [h0, List.nil_append]
+      exact ih W hpw hall (fun r hr hd hl hm => hin r hr hd (by omega) hm)
+    · -- the head of the chain has depth exactly n
+      cases W with
+      | nil => exact absurd (by simp) hall
+      | cons k W' =>
+        have hk : k.length = n := by
+          have h1 := hlen k (List.mem_cons_self ..)
+          have hW' : ∀ k' ∈ W', k'.length < k.length := (List.pairwise_cons.mp hpw).1
+          by_cases hkn : k.length < n
+          · exfalso; apply hall
+            intro k' hk'
+            rcases List.mem_cons.mp hk' with rfl | hk'
+            · exact hkn
+            · have := hW' _ hk'; omega
+          · omega
+        have hW' : ∀ k' ∈ W', k'.length < n := by
+          intro k' hk'; have := (List.pairwise_cons.mp hpw).1 k' hk'; omega
+        simp only [List.flatMap_cons, nz_append]
+        have hb : nz ((rs.filter (fun r => !dom r && (key r).length == n)).map a) =
+            nz ((rs.filter (fun r => !dom r && key r == k)).map a) := by
+          apply nz_filter_map_congr
+          · intro r _ hp
+            simp only [Bool.and_eq_true, Bool.not_eq_true', beq_iff_eq] at hp ⊢
+            exact ⟨hp.1, by rw [hp.2]; exact hk⟩
+          · intro r hr hq hp
+            simp only [Bool.and_eq_true, Bool.not_eq_true', beq_iff_eq] at hq
+            have hne : key r ≠ k := by
+              intro e
+              simp [hq.1, e] at hp
+            refine hin r hr hq.1 (by omega) ?_
+            intro hm
+            rcases List.mem_cons.mp hm with e | hm
+            · exact hne e
+            · have := hW' _ hm; omega
+        rw [hb]
+        congr 1
+        refine ih W' (List.pairwise_cons.mp hpw).2 hW' ?_
+        intro r hr hd hl hm
+        refine hin r hr hd (by omega) ?_
+        intro hm'
+        rcases List.mem_cons.mp hm' with e | hm'
+        · rw [e] at hl; omega
+        · exact hm hm'
+
+/-! ## positions and buckets -/
+
+/-- positions of the resources satisfying `P` -/
+def positions (P : Res → Bool) (rs : List Res) : List Nat :=
+  (List.range rs.length).filter (fun i => match rs[i]? with | some r => P r | none => false)
+
+theorem atPositions_map_succ (r : Res) (rs : List Res) (is : List Nat) :
+    atPositions (r :: rs) (is.map (· + 1)) = atPositions rs is := by
+  induction is with
+  | nil => rfl
+  | cons i is ih =>
+    simp only [atPositions, List.map_cons, List.filterMap_cons, List.getElem?_cons_succ] at ih ⊢
+    rw [ih]
+
+theorem positions_cons (P : Res → Bool) (r : Res) (rs : List Res) :
+    positions P (r :: rs) = (if P r then [0] else []) ++ (positions P rs).map (· + 1) := by
+  unfold positions
+  rw [List.length_cons, List.range_succ_eq_map, List.filter_cons]
+  have hfg : ((fun i => match (r :: rs)[i]? with | some r => P r | none => false) ∘ Nat.succ) =
+      (fun i => match rs[i]? with | some r => P r | none => false) := by
+    funext i; simp [Function.comp]
+  simp only [List.getElem?_cons_zero, List.filter_map, hfg]
+  have hm : ∀ l : List Nat, List.map Nat.succ l = List.map (· + 1) l := fun l => rfl
+  split <;> simp [hm]
+
+theorem atPositions_positions (P : Res → Bool) (rs : List Res) :
+    atPositions rs (positions P rs) = rs.filter P := by
+  induction rs with
+  | nil => simp [positions, atPositions]
+  | cons r rs ih =>
+    rw [positions_cons]
+    have e := atPositions_map_succ r rs (positions P rs)
+    cases hP : P r with
+    | true =>
+      have : atPositions (r :: rs) ([0] ++ (positions P rs).map (· + 1)) =
+          r :: atPositions (r :: rs) ((positions P rs).map (· + 1)) := by
+        simp [atPositions]
+      simp only [if_true, this, e, ih, List.filter_cons, hP]
+    | false =>
+      simp only [Bool.false_eq_true, if_false, List.nil_append, e, ih, List.filter_cons, hP]
+
 end Aio.C14
